@@ -545,6 +545,28 @@ static void history(long caseno) {
     universe_free();
 }
 
+/* "all hash-collision patterns", "any capacity": one home slot shared by 32768 keys in a table of 33000 slots (thorough tier, C06 only).
+ * Every key must stay reachable and the counters exact after every put. */
+static void long_chain(long caseno) {
+    int cap = 33000; size_t ms = qhasharr_calculate_memsize(cap); void *mem = hm_alloc(ms);
+    qhasharr_t *t = qhasharr(mem, ms); if (!t) { fprintf(stderr, "h_hasharr: long_chain: constructor failed\n"); exit(2); }
+    vf_case_begin(caseno, "one collision chain of 32768 keys in a table of %d slots", cap);
+    uint64_t first = 0, k = 0; int stored = 0; bool lost = false;
+    vf_cpu_arm_prop("C06", "long_chain", 900000);
+    while (stored < 32768 + 8 && !lost) { k++;
+        if (ref_murmur3_32(&k, 8) % (uint32_t)cap != 7) continue;
+        if (!t->put_by_obj(t, &k, 8, "v", 2)) { vf_viol("C06", "long-chain-put-refused", "put of the %d-th key of one home slot was refused although %d slots are free", stored + 1, cap - stored); break; }
+        stored++; if (stored == 1) first = k;
+        if (stored >= 32760 || (stored & 4095) == 0) { size_t sz = 0; void *v = t->get_by_obj(t, &first, 8, &sz); int us = 0, mx = 0; int n = t->size(t, &mx, &us);
+            if (!v || n != stored || us != stored) { vf_log("after %d puts: get(first)=%p size()=%d used=%d", stored, v, n, us); lost = true;
+                vf_viol("C06", "count-overflow:long-chain", "after the %d-th key of one home slot was stored, the first key of the chain is %s and size() reports %d keys / %d used slots", stored, v ? "found" : "no longer found", n, us); }
+            free(v); }
+    }
+    vf_cpu_disarm();
+    vf_count("evaluations", stored); vf_count("long_chain_keys", stored); vf_distinct("distinct", VF_H0 + 424242);
+    t->free(t); hm_free(mem);
+}
+
 int main(int argc, char **argv) {
     vf_init(argc, argv, "h_hasharr");
     P = atoi(VF.prop + 1);
@@ -555,5 +577,6 @@ int main(int argc, char **argv) {
     long statecap = vf_arg_long("statecap", 200000);
     if (vf_arg_long("exhaustive", 1) && (VF.only_case < 0 || VF.only_case >= 1000000000L)) phase_exhaustive(maxcap, statecap);
     for (long c = 0; c < ncases; c++) if (vf_mine(c)) history(c);
+    if (P == 6 && vf_arg_long("longchain", 0) && vf_mine(900000000L)) long_chain(900000000L);
     return vf_finish() ? 1 : 0;
 }
